@@ -417,7 +417,7 @@ func RunCheck(opts *CheckOpts) int {
 	// functions under contract for this property
 	var keys []string
 	for k, c := range prog.Contracts {
-		if c.Trusted && !((c.Sequential || len(c.Exhaustive) > 0 || len(c.Criticals) > 0 || c.ReleasesLock || c.HasErrorsFrom || len(c.Forbids) > 0 || c.NoReentrantLock || len(c.Handled) > 0) && hasProp(c, prop)) {
+		if c.Trusted && !((c.Sequential || len(c.Exhaustive) > 0 || len(c.Criticals) > 0 || c.ReleasesLock || c.HasErrorsFrom || len(c.Forbids) > 0 || c.NoReentrantLock || len(c.Handled) > 0 || len(c.PrecededBy) > 0) && hasProp(c, prop)) {
 			continue
 		}
 		if opts.AllFuncs || hasProp(c, prop) {
@@ -476,7 +476,7 @@ func RunCheck(opts *CheckOpts) int {
 			r.Err = "contract does not bind: function " + ShortKey(k) + " not found"
 			continue
 		}
-		if c.Trusted && !c.Sequential && (len(c.Exhaustive) > 0 || len(c.Criticals) > 0 || c.ReleasesLock || c.HasErrorsFrom || len(c.Forbids) > 0 || c.NoReentrantLock || len(c.Handled) > 0) && fn.Blocks != nil {
+		if c.Trusted && !c.Sequential && (len(c.Exhaustive) > 0 || len(c.Criticals) > 0 || c.ReleasesLock || c.HasErrorsFrom || len(c.Forbids) > 0 || c.NoReentrantLock || len(c.Handled) > 0 || len(c.PrecededBy) > 0) && fn.Blocks != nil {
 			// structural obligations only: the body is not verified
 			g := NewGen(prog, fn, c)
 			r.Gen = g
@@ -520,6 +520,14 @@ func RunCheck(opts *CheckOpts) int {
 					continue
 				}
 				obs = append(obs, ho...)
+			}
+			if len(c.PrecededBy) > 0 {
+				po, e4 := precededByObligations(g, fn, k, c)
+				if e4 != "" {
+					r.Err = "contract does not bind: " + e4
+					continue
+				}
+				obs = append(obs, po...)
 			}
 			r.Obligations = append(r.Obligations, obs...)
 			all = append(all, obs...)
@@ -613,6 +621,14 @@ func RunCheck(opts *CheckOpts) int {
 				continue
 			}
 			g.Obls = append(g.Obls, ho...)
+		}
+		if len(c.PrecededBy) > 0 {
+			po, e4 := precededByObligations(g, fn, k, c)
+			if e4 != "" {
+				r.Err = "contract does not bind: " + e4
+				continue
+			}
+			g.Obls = append(g.Obls, po...)
 		}
 		if c.HasErrorsFrom {
 			g.Obls = append(g.Obls, errorsFromObligations(prog, g, fn, k, c)...)
@@ -2544,3 +2560,67 @@ func handledObligations(g *Gen, fn *ssa.Function, key string, c *Contract) ([]*O
 }
 
 func isGo(in ssa.Instruction) bool { _, ok := in.(*ssa.Go); return ok }
+
+
+func calleeName(cc *ssa.CallCommon) string {
+	if cc.IsInvoke() {
+		return cc.Method.Name()
+	}
+	if f := cc.StaticCallee(); f != nil {
+		return f.Name()
+	}
+	if b, ok := cc.Value.(*ssa.Builtin); ok {
+		return b.Name()
+	}
+	return ""
+}
+
+// precededByObligations: structural obligations of `precededby A B` clauses: every
+// (non-deferred) call of A is dominated by a call of B — B is called earlier in the same
+// block, or in a block that dominates the block of A.
+func precededByObligations(g *Gen, fn *ssa.Function, key string, c *Contract) ([]*Obligation, string) {
+	var out []*Obligation
+	for pi, pb := range c.PrecededBy {
+		clause := fmt.Sprintf("precededby %s %s", pb[0], pb[1])
+		type site struct {
+			b *ssa.BasicBlock
+			i int
+		}
+		var bs []site
+		for _, b := range fn.Blocks {
+			for i, in := range b.Instrs {
+				if ci, ok := in.(*ssa.Call); ok && calleeName(&ci.Call) == pb[1] {
+					bs = append(bs, site{b, i})
+				}
+			}
+		}
+		n := 0
+		for _, b := range fn.Blocks {
+			for i, in := range b.Instrs {
+				ci, ok := in.(*ssa.Call)
+				if !ok || calleeName(&ci.Call) != pb[0] {
+					continue
+				}
+				name := fmt.Sprintf("%s#precededby.%d/%d", ShortKey(key), pi, n)
+				n++
+				good := false
+				for _, s := range bs {
+					if (s.b == b && s.i < i) || (s.b != b && s.b.Dominates(b)) {
+						good = true
+					}
+				}
+				goal := True
+				cl := clause
+				if !good {
+					goal = False
+					cl = clause + ": a call of " + pb[0] + " can be reached without a call of " + pb[1]
+				}
+				out = append(out, &Obligation{Name: name, Kind: "precededby", Fn: key, Clause: cl, Pos: g.pos(in.Pos()), Reach: True, Goal: goal, Gen: g})
+			}
+		}
+		if n == 0 {
+			return nil, fmt.Sprintf("precededby %s %s: the function does not call %s", pb[0], pb[1], pb[0])
+		}
+	}
+	return out, ""
+}
